@@ -156,7 +156,14 @@ func goTracking(repo, rel string) ([]string, error) {
 							}
 						}
 					}
-					out = append(out, tracked+": "+actionOf(g.Call, local, 0))
+					// what the theorems need is that no goroutine of the file is left untracked (beyond the helper goroutines
+					// of Stop itself): tracked ones are not listed one by one (how many there are and what they are called
+					// changes with harmless restructuring), untracked ones are, with what they do
+					if tracked == "tracked" {
+						out = append(out, "tracked")
+					} else {
+						out = append(out, tracked+": "+actionOf(g.Call, local, 0))
+					}
 				}
 				ast.Inspect(s, func(n ast.Node) bool {
 					switch b := n.(type) {
@@ -182,7 +189,16 @@ func goTracking(repo, rel string) ([]string, error) {
 		visit(fd.Body.List)
 	}
 	sort.Strings(out)
-	return out, nil
+	var uniq []string
+	for i, o := range out {
+		if i == 0 || o != out[i-1] {
+			uniq = append(uniq, o)
+		}
+	}
+	if uniq == nil {
+		uniq = []string{}
+	}
+	return uniq, nil
 }
 
 func lifecycleFacts(repo string) (interface{}, error) {
